@@ -419,6 +419,23 @@ func (w *c17World) events() []c17Event {
 		db.rows[len(db.rows)-1] = val
 		return true
 	}})
+	ev = append(ev, c17Event{"DELETE last row", func(w *c17World) bool {
+		if w.cur == "" || !w.dbs[w.cur].hasTable || len(w.dbs[w.cur].rows) == 0 {
+			return true
+		}
+		db := w.dbs[w.cur]
+		err := w.exec(fmt.Sprintf("DELETE FROM t WHERE a = %d", db.as[len(db.as)-1]))
+		if err != nil {
+			if pe, ok := err.(*panicErr); ok {
+				w.fail("panic", "DELETE of the last row with database %q selected: %v\n%s", w.cur, pe.val, trimStack(pe.stack))
+			} else {
+				w.fail("statement-failed", "DELETE of the last row in database %s: %v", w.cur, err)
+			}
+			return false
+		}
+		db.rows, db.as = db.rows[:len(db.rows)-1], db.as[:len(db.as)-1]
+		return true
+	}})
 	for i, s := range w.liveStores() {
 		st := s
 		ev = append(ev, c17Event{fmt.Sprintf("TICK store#%d (%s)", i, st.Path), func(w *c17World) bool {
@@ -447,7 +464,7 @@ func runC17(env *lib.Env, rep *lib.Report) {
 	rep.Bounds["depth"] = fmt.Sprintf("quick: 4 from the one-row seed and from the empty directory, 3 from the flushed 12-row seed, 2 from the seed with a long log (130 single-row statements); thorough: 6 / 5 / 4 / 4 (this run: tier depth %d)", depth)
 	rep.Bounds["seeds"] = seeds
 	rep.Bounds["journeys"] = "from the flushed 12-row seed and from a flushed seed with seven tables (t holding 8 rows): every sequence of 5 (thorough 6) steps over {TICK, UPDATE all rows, UPDATE last row, INSERT, USE b + USE a, USE a, RESTART + USE a}"
-	rep.Bounds["events"] = "CREATE DATABASE a|B, USE a|b|A|B|nosuch (names are case-insensitive), CREATE TABLE t, CREATE TABLE u1/u2/.. (the next unused name), INSERT, UPDATE (all rows), TICK of every live store (including abandoned ones), RESTART; SHOW DATABASES and read-back are checked after every event; the read-back also probes every table name that exists only in another database (must be refused, the store left unlocked)"
+	rep.Bounds["events"] = "CREATE DATABASE a|B, USE a|b|A|B|nosuch (names are case-insensitive), CREATE TABLE t, CREATE TABLE u1/u2/.. (the next unused name), INSERT, UPDATE (all rows), UPDATE / DELETE of the newest row, TICK of every live store (including abandoned ones), RESTART; SHOW DATABASES and read-back are checked after every event; the read-back also probes every table name that exists only in another database (must be refused, the store left unlocked)"
 	known := env.OpenKnown()
 	explore(env, rep, 0, func(c *lib.Ctx) {
 		if worldHome == "" {
@@ -553,7 +570,7 @@ func runC17(env *lib.Env, rep *lib.Report) {
 		if seed == "journeys" || seed == "journeys-7-tables" {
 			// longer histories over a reduced alphabet of whole steps (each may be several statements): what one
 			// database goes through when it is written, flushed, left, re-entered and restarted again and again
-			macros := [][]string{{"TICK store#0"}, {"UPDATE"}, {"UPDATE last row"}, {"INSERT"}, {"USE b", "USE a"}, {"USE a"}, {"RESTART", "USE a"}}
+			macros := [][]string{{"TICK store#0"}, {"UPDATE"}, {"UPDATE last row"}, {"DELETE last row"}, {"INSERT"}, {"USE b", "USE a"}, {"USE a"}, {"RESTART", "USE a"}}
 			jsteps := 5
 			if env.Thorough() {
 				jsteps = 6
